@@ -12,7 +12,7 @@ from vf import common, x86space
 PROPERTY = 'C10'
 RULE = ('bytes: every opcode cell (1-byte, 0F, 0F38, 0F3A maps) x all 256 ModRM values x SIB classes x filler classes, with no prefix, '
         'each single prefix, and prefix pairs (no "both decoders accept" filter), plus seeded random strings up to 16 bytes; for every '
-        'accepted string also every truncation, the exact-length prefix, a decode from a stream at offsets 1/7/4096, and the same through a file-object stream and a virtual-memory stream. text: every '
+        'accepted string also every truncation, the exact-length prefix, a decode from a stream at offsets 1/7/4096, and the same through a file-object stream, a virtual-memory stream and a bytearray. text: every '
         'line "<mnemonic> t1 t2 [t3]" over a lexical alphabet of ~45 tokens (registers of every file, size keywords, punctuation, numbers '
         'at width boundaries, a symbol) for 14 mnemonics in both syntaxes, plus token deletions/duplications/swaps of well-formed lines. '
         'A case = the byte string or the text line (+syntax); non-trivial = the decoder accepted the bytes / the assembler returned or '
@@ -144,7 +144,7 @@ def check_bytes(sh, b, cls=None, deep=True):
 
         def __call__(self, start, stop, section=None):
             return self.data[start:stop]
-    for kind, mk in (('file', lambda d, o: bin_stream(io.BytesIO(d), o)), ('virt', lambda d, o: bin_stream(_Virt(d), o))):
+    for kind, mk in (('file', lambda d, o: bin_stream(io.BytesIO(d), o)), ('virt', lambda d, o: bin_stream(_Virt(d), o)), ('bytearray', lambda d, o: bin_stream(bytearray(d), o))):
         for data, off, expect in [(b[:l], 0, True)] + [(b[:k], 0, False) for k in range(1, l)] + [(b'\x90' * 5 + b[:l], 5, True), (b'\x90' * 5 + b[:max(1, l - 1)], 5, l == 1)]:
             try:
                 i4 = x86mnemo.dis(mk(data, off))
